@@ -276,6 +276,9 @@ def gen_c01_spec(rng: random.Random, maxn: int = 40) -> Dict[str, Any]:
     if rng.random() < 0.15:
         # another worker object in the same process (another broker, tasks of the same names, other signatures)
         spec["twin_receiver"] = True
+    if rng.random() < 0.1:
+        # the broker's wire format is configured after the worker object was built
+        spec["fmt_late"] = rng.choice(["formatter", "serializer"])
     r = rng.random()
     if r < 0.12:
         # a task registered while the worker is running (dynamic tasks): messages naming it are unknown before
@@ -494,6 +497,8 @@ def gen_c02_spec(rng: random.Random) -> Dict[str, Any]:
             beh["dur"] = []
             if rng.random() < 0.3:
                 beh["sync_hold"] = rng.choice([0.05, 0.3, 1.0])
+            if rng.random() < 0.3:
+                m["timeout"] = rng.choice([10, 30])  # a (generous) timeout label on a sync task function
         elif rng.random() < 0.3:
             d = O._dur_total(beh) or 0.0
             m["timeout"] = rng.choice([0.05, 0.2, max(0.01, d - 0.01), d + 0.01, 10])
@@ -1188,6 +1193,8 @@ def gen_c06_spec(rng: random.Random, depth: int, maxmsgs: int) -> Dict[str, Any]
         beh = gen_beh(rng, ["ok", "ok", "raise"], [[], ["y"], [0.05], [0.1], [0.3]])
         if tasks[tn]["fn"] == "sync":
             beh["dur"] = []
+        if beh["out"].startswith("raise:") and rng.random() < 0.4:
+            beh["out"] = "raise:LockedError"  # (cannot be pickled itself: a pickling backend stores a stand-in)
         msgs.append({"at": round(t, 6), "task": tn, "beh": beh, "ackable": rng.random() < 0.5,
                      "ack_kind": rng.choice(["sync", "async", "async", "task"]), "ack_lat": rng.choice([0, "y", 0.01, 0.05, 0.2]),
                      "labels": {"k": rng.randint(0, 9)}, "raw_labels": rng.random() < 0.2,
@@ -1195,7 +1202,7 @@ def gen_c06_spec(rng: random.Random, depth: int, maxmsgs: int) -> Dict[str, Any]
     spec: Dict[str, Any] = {"cfg": {"A": rng.choice([None, 2, 4, 8, 1]), "P": rng.choice([0, 2]),
                                     "ack": rng.choice(["when_saved", "when_executed", "when_received", "when_received"])},
                             "tasks": tasks, "deps": deps, "msgs": msgs, "end_stream": True, "overrides": overrides,
-                            "backend": {"lat": rng.choice([0, 0.02])}}
+                            "backend": {"lat": rng.choice([0, 0.02]), "pickle": rng.random() < 0.5}}
     if rng.random() < 0.3:
         spec["mws"] = [{"pre_execute": {"async": True, "lat": rng.choice(["y", 0.02])}}]
     if rng.random() < 0.2:
@@ -1211,6 +1218,20 @@ def gen_c06_spec(rng: random.Random, depth: int, maxmsgs: int) -> Dict[str, Any]
     elif rng.random() < 0.25 and not any(ts.get("progress") for ts in tasks.values()):
         # redelivered / re-used task ids: two messages with one id (different content) in flight together or back to back
         add_same_id_messages(rng, msgs, 0.4)
+    elif rng.random() < 0.3:
+        # messages with label names of their own, some of them handed back to the broker by their task (Context.requeue)
+        # and delivered again: every delivery carries the labels of its message and no others
+        spec["loopback"] = True
+        spec["end_stream"] = False
+        for i, m in enumerate(msgs):
+            m["labels"][f"u{i}"] = rng.choice(["a", 1, 2.5, True] + ([] if m.get("raw_labels") else [b"\x00\xff"]))
+            if tasks[m["task"]]["fn"] == "async" and rng.random() < 0.6:
+                first = dict(m["beh"])
+                first["out"] = "requeue"
+                m["beh"] = [first, m["beh"]]
+        spec["stop_at"] = round(2 * (est_horizon(spec) + 5 * len(deps)), 3)
+        spec["horizon"] = 2 * spec["stop_at"] + 10
+        return spec
     spec["horizon"] = est_horizon(spec) + 5 * len(deps)
     return spec
 
